@@ -85,12 +85,60 @@ outside_scenario(int mode) {
 	}
 }
 
+/* one user data record is registered on pool thread 0, its registration ends (one-shot fired / deleted), and it is registered again on pool thread 1: "an event registered on a pool thread invokes its callback on that
+ * thread" - the thread of the LAST registration */
+static void
+expect_on(int want, int thr, const char *when) {
+	sc_wait_quiescent();
+	if (fired != want)
+		sc_fail((fired < want) ? "event-lost" : "event-fired-extra", "%s: callback ran %d time(s) in total, the registration promises %d", when, fired, want);
+	if (fired > 0 && fired_tid != tpc_tid_of[thr])
+		sc_fail("wrong-thread", "%s: callback ran on scheduler thread T%d, the event was registered on pool thread %d = T%d", when, fired_tid, thr, tpc_tid_of[thr]);
+}
+
+static void
+rebind_scenario(int mode) {
+	tpt_p t0, t1;
+	int rc;
+
+	tpc_up(2, 0);
+	t0 = tp_thread_get(tpc_tp, 0);
+	t1 = tp_thread_get(tpc_tp, 1);
+	if (0 != pipe2(pfd, O_NONBLOCK))
+		sc_fail("harness", "pipe2");
+	memset(&ud, 0, sizeof(ud));
+	ud.cb_func = ev_cb;
+	drain_in_cb = 1;
+	fired = 0;
+	switch (mode) {
+	case 0: /* one-shot read on thread 0 fires and is gone; dispatch read on thread 1 */
+	case 1: /* persistent read on thread 0, deleted; then thread 1 */
+		ud.ident = (uintptr_t)pfd[0];
+		if (1 != write(pfd[1], "a", 1)) sc_fail("harness", "write");
+		rc = tpt_ev_add_args2(t0, TP_EV_READ, (0 == mode) ? TP_F_ONESHOT : 0, &ud);
+		if (0 != rc) sc_fail("add-refused", "rc=%d", rc);
+		expect_on(1, 0, "after add on thread 0");
+		if (1 == mode) {
+			rc = tpt_ev_del_args1(TP_EV_READ, &ud);
+			if (0 != rc) sc_fail("del-refused", "rc=%d", rc);
+			sc_wait_quiescent();
+		}
+		if (1 != write(pfd[1], "b", 1)) sc_fail("harness", "write");
+		rc = tpt_ev_add_args2(t1, TP_EV_READ, TP_F_DISPATCH, &ud);
+		if (0 != rc) sc_fail("add-refused", "second add (thread 1) rc=%d", rc);
+		expect_on(2, 1, "after the registration ended on thread 0 and the record was added on thread 1");
+		break;
+	}
+}
+
 const sc_scenario_t sc_scenarios[] = {
 	{ "outside/dispatch", outside_scenario, 0 },
 	{ "outside/oneshot", outside_scenario, 1 },
 	{ "outside/persistent-drain", outside_scenario, 2 },
+	{ "rebind/oneshot-read", rebind_scenario, 0 },
+	{ "rebind/deleted-read", rebind_scenario, 1 },
 };
-const int sc_nscenarios = 3;
+const int sc_nscenarios = 5;
 
 int
 main(int argc, char **argv) {
